@@ -13,4 +13,5 @@ one() {
   echo "$id $v own=[$obl] all=[$hit] undecided=$und"
 }
 export -f one
-echo $ids | tr ' ' '\n' | xargs -P ${JOBS:-6} -I{} bash -c 'one {}' | sort
+echo $ids | tr ' ' '\n' | xargs --process-slot-var=KVM_SLOT -P ${JOBS:-6} -I{} bash -c 'one {}' | sort
+rm -rf "${VERIF_SCRATCH:-/var/tmp}"/kvm.slot.*
